@@ -181,6 +181,28 @@ def case_functions(case):
     return {"v": v[:8], "nt": n, "n": n, "obs": {"points": n}}
 
 
+HIST_OPS = [
+    {"n": 4, "zm": 5.0, "wind": [3.0, 1.0], "ustar": 0.4, "mol": -50.0, "closure": "MOST"},
+    {"n": 4, "zm": 5.0, "wind": [3.0, 1.0], "ustar": 0.3, "mol": 80.0, "closure": "MOSTM"},
+    {"n": 4, "zm": 5.0, "wind": [-2.0, 2.5], "z0": 0.05, "mol": -50.0, "closure": "MOST"},
+    {"n": 8, "zm": 10.0, "wind": [3.0, 1.0], "ustar": 0.4, "mol": 1e9, "closure": "CONSTANT", "prsc": 0.7},
+    {"n": 4, "zm": 5.0, "wind": [3.0, 1.0], "ustar": 0.4, "mol": 1e9, "closure": "OAAHOC", "tke": 0.8},
+    {"n": 4, "zm": 5.0, "wind": [3.0, 1.0], "ustar": 0.4, "mol": -50.0, "closure": "MOST", "domain_height": 30.0, "stretch": 20.0},
+    {"n": 3, "zm": 2.0, "wind": [0.0, -4.0], "z0": 0.2, "mol": 25.0, "closure": "MOSTM"},
+]
+
+
+def hist_op(i):
+    from bldfm.pbl_model import vertical_profiles
+
+    kw = dict(HIST_OPS[i])
+    n, zm, wind = kw.pop("n"), kw.pop("zm"), tuple(kw.pop("wind"))
+    with warnings.catch_warnings():
+        warnings.simplefilter("ignore")
+        z, prof = vertical_profiles(n, zm, wind, **kw)
+    return (np.asarray(z), tuple(np.asarray(p) for p in prof))
+
+
 def run(ctx):
     cases = list(lattice(ctx.tier))
     ctx.rule = (
@@ -191,3 +213,6 @@ def run(ctx):
     res = ctx.run_cases(case_profiles, list(_chunks(cases, 64)), sub="profiles", chunksize=1)
     ctx.run_cases(case_functions, [{"functions": "psi,phi"}], sub="stability-functions", serial=True)
     ctx.cov["lattice_points_physically_consistent"] = len(cases)
+    from vf import histories
+
+    histories.run(ctx, __name__, 2 if ctx.tier == "quick" else 3)
